@@ -327,6 +327,7 @@ impl Lab {
                         issued_step: step,
                         issued_instant: Instant::now(),
                         prev_activity,
+                        offered_since_poll: vec![],
                         state: ReqState::Checkout,
                         dial: None,
                         conn: None,
@@ -377,6 +378,7 @@ impl Lab {
                     let mut w = lock(&self.world);
                     let b = (w.reqs[r].state, w.reqs[r].polls);
                     w.reqs[r].polls += 1;
+                    w.reqs[r].offered_since_poll.clear();
                     b
                 };
                 let waker = Waker::from(wk);
